@@ -65,7 +65,9 @@ func genSetCase(t *rapid.T) interface{} {
 		c.Vals = append(c.Vals, SetVal{Power: pow(i), Bonded: i == 0 || rapid.IntRange(0, 9).Draw(t, "bonded") < 8,
 			Keys: rapid.SampledFrom([]int{7, 7, 7, 7, 3, 5, 1, 0}).Draw(t, "keys")})
 	}
-	c.Vals[0].Keys = 7
+	if rapid.IntRange(0, 9).Draw(t, "anchor-has-keys") < 7 {
+		c.Vals[0].Keys = 7 // (validator 0 never unbonds; when it lacks a key on a chain, that chain's set can become empty)
+	}
 	nops := rapid.IntRange(4, 50).Draw(t, "nops")
 	for i := 0; i < nops; i++ {
 		k := rapid.IntRange(0, 99).Draw(t, "k")
